@@ -23,3 +23,99 @@ Proof.
   - destruct (N.leb_spec full first); [discriminate|]. intros [= <- <-]. lia.
   - destruct (N.eqb_spec len 0); [discriminate|]. intros [= <- <-]. lia.
 Qed.
+
+(* ---------- print then parse ---------- *)
+From S3V Require Import lib.Digits.
+From Coq Require Import Lia ZifyBool ZifyN ZifyNat.
+
+Lemma digit_is_dig c : is_dig c = true -> digit c = Some (c - 48).
+Proof. unfold is_dig, digit. intros ->. reflexivity. Qed.
+
+Lemma scan_digits : forall ds acc n rest,
+  forallb is_dig ds = true -> dval_from acc ds < U64 ->
+  match rest with c :: _ => digit c = None | [] => True end ->
+  scan (Some acc) n (ds ++ rest) = (Some (dval_from acc ds), (n + length ds)%nat, rest).
+Proof.
+  induction ds as [|c ds IH]; intros acc n rest Hd Hv Hr.
+  - cbn [app length dval_from fold_left]. rewrite Nat.add_0_r. destruct rest as [|c r]; [reflexivity|].
+    cbn [scan]. rewrite Hr. reflexivity.
+  - cbn [forallb] in Hd. apply andb_prop in Hd as [Hc Hd]. cbn [app scan]. rewrite (digit_is_dig c Hc).
+    unfold dval_from in *. cbn [fold_left] in *. fold (dval_from (acc * 10 + (c - 48)) ds) in *.
+    pose proof (dval_from_mono (acc * 10 + (c - 48)) ds) as Hm.
+    assert (E : (acc * 10 + (c - 48) <? U64) = true) by (apply N.ltb_lt; lia). rewrite E.
+    rewrite (IH _ (S n) rest Hd Hv Hr). cbn [length]. f_equal. f_equal. lia.
+Qed.
+
+Lemma scan_show n rest : n < U64 -> match rest with c :: _ => digit c = None | [] => True end ->
+  exists k, scan (Some 0) 0 (show_N n ++ rest) = (Some n, S k, rest).
+Proof.
+  intros Hn Hr. destruct (show_N_spec n) as (Hne & Hd & Hv).
+  rewrite (scan_digits (show_N n) 0 0 rest Hd); [|unfold dval in Hv; rewrite Hv; exact Hn|exact Hr].
+  unfold dval in Hv. rewrite Hv. destruct (show_N n) as [|c l]; [congruence|]. exists (length l). reflexivity.
+Qed.
+
+Lemma show_N_head n : exists c l, show_N n = c :: l /\ c <> 45.
+Proof.
+  destruct (show_N_spec n) as (Hne & Hd & _). destruct (show_N n) as [|c l]; [congruence|].
+  exists c, l. split; [reflexivity|]. cbn [forallb] in Hd. apply andb_prop in Hd as [Hc _]. unfold is_dig in Hc. lia.
+Qed.
+
+(* what Range::to_header_string prints, Range::parse reads back as the same range - for every well-formed range *)
+Theorem parse_to_header r :
+  match r with
+  | RInt f None => f < I63
+  | RInt f (Some l) => f <= l /\ l < I63
+  | RSuffix l => l < U64
+  end -> parse (to_header r) = Some r.
+Proof.
+  assert (HI : I63 < U64) by (vm_compute; reflexivity).
+  unfold parse, to_header, show_u64. rewrite strip_prefix_app.
+  destruct r as [f [l|]|l]; intros H.
+  - destruct H as [Hfl Hl]. destruct (show_N_head f) as (c & t & Ef & Hc).
+    destruct (scan_show f (45 :: show_N l) ltac:(lia) eq_refl) as (k & Hs).
+    rewrite Ef in *. cbn [app]. cbn [app] in Hs.
+    destruct (N.eqb_spec c 45) as [|_]; [contradiction|].
+    replace (match c with 45 => _ | _ => _ end) with
+      (match parse_u64_once (c :: t ++ 45 :: show_N l) with
+       | None => None
+       | Some (first, r) => if I63 <=? first then None else
+           match r with
+           | 45 :: r' => match r' with
+                         | [] => Some (RInt first None)
+                         | _ => match parse_u64_full r' with
+                                | None => None
+                                | Some last => if (I63 <=? last) || (last <? first) then None else Some (RInt first (Some last))
+                                end
+                         end
+           | _ => None
+           end
+       end).
+    2:{ destruct c as [|p]; [reflexivity|]. do 6 (destruct p as [p|p|]; try reflexivity). congruence. }
+    unfold parse_u64_once. rewrite Hs.
+    assert (E1 : (I63 <=? f) = false) by (apply N.leb_gt; lia). rewrite E1.
+    destruct (show_N_head l) as (c2 & t2 & El & _). rewrite El. rewrite <- El.
+    unfold parse_u64_full. destruct (scan_show l [] ltac:(lia) I) as (k2 & Hs2). rewrite app_nil_r in Hs2. rewrite Hs2.
+    assert (E2 : (I63 <=? l) || (l <? f) = false) by lia. rewrite E2. reflexivity.
+  - destruct (show_N_head f) as (c & t & Ef & Hc).
+    destruct (scan_show f [45] ltac:(lia) eq_refl) as (k & Hs).
+    rewrite Ef in *. cbn [app]. cbn [app] in Hs.
+    replace (match c with 45 => _ | _ => _ end) with
+      (match parse_u64_once (c :: t ++ [45]) with
+       | None => None
+       | Some (first, r) => if I63 <=? first then None else
+           match r with
+           | 45 :: r' => match r' with
+                         | [] => Some (RInt first None)
+                         | _ => match parse_u64_full r' with
+                                | None => None
+                                | Some last => if (I63 <=? last) || (last <? first) then None else Some (RInt first (Some last))
+                                end
+                         end
+           | _ => None
+           end
+       end).
+    2:{ destruct c as [|p]; [reflexivity|]. do 6 (destruct p as [p|p|]; try reflexivity). congruence. }
+    unfold parse_u64_once. rewrite Hs.
+    assert (E1 : (I63 <=? f) = false) by (apply N.leb_gt; lia). rewrite E1. reflexivity.
+  - unfold parse_u64_full. destruct (scan_show l [] H I) as (k & Hs). rewrite app_nil_r in Hs. rewrite Hs. reflexivity.
+Qed.
